@@ -1,4 +1,433 @@
+/-
+C15 — EUI-64, host:port and URL helpers round-trip (oslo_utils.netutils).
+
+Property theorems only; helper facts are `lemma_…` (here, or in
+OsloProofs/Lemmas/C15Arith.lean and C15Text.lean).  The models are
+OsloModel/Eui64.lean and OsloModel/HostPort.lean.
+
+Quantifiers: every 48-bit MAC, every network address (the integer
+`netaddr.IPNetwork(prefix).first`), every host of the three classes below, every
+string of port digits, every default port, every `parse_qsl` result, every
+five-tuple the standard library's `urlsplit` may return.
+-/
 import OsloModel.Eui64
 import OsloModel.HostPort
+import OsloProofs.Lemmas.C15Arith
+import OsloProofs.Lemmas.C15Text
 namespace Oslo.C15
+open Oslo.Eui64 Oslo.HostPort
+
+deriving instance DecidableEq for Except
+
+/-! ## EUI-64 -/
+
+/-- for a 48-bit MAC and a network address with zero low 64 bits the computed integer is in the
+    IPv6 range of `netaddr.IPAddress(int)` (never the IPv4 or the out-of-range outcome) -/
+theorem lemma_combine_range (net mac : Nat) (hmac : mac < 2^48) (hnet : net % 2^64 = 0)
+    (hlt : net < 2^128) :
+    2^32 ≤ combine net (eui64Of48 mac) ∧ combine net (eui64Of48 mac) < 2^128 := by
+  rw [lemma_combine_arith net mac hmac hnet]
+  have hf := lemma_flip17_lt (mac / 2^24) (by omega)
+  omega
+
+/-- **Round trip.**  For every 48-bit MAC and every IPv6 network address whose low 64 bits are
+    zero (every prefix of length ≤ 64; host bits of the prefix text never reach the model because
+    the code uses `prefix.first`), get_ipv6_addr_by_EUI64 returns an IPv6 address and
+    get_mac_addr_by_ipv6 recovers the MAC from it. -/
+theorem mac_of_eui64_addr (net mac : Nat) (hmac : mac < 2^48) (hnet : net % 2^64 = 0)
+    (hlt : net < 2^128) :
+    ∃ a, addrByEUI64 (.net net) (.eui48 mac) = .ok (.v6 a) ∧ macOf (.v6 a) = .ok mac := by
+  refine ⟨combine net (eui64Of48 mac), ?_, ?_⟩
+  · have ⟨h1, h2⟩ := lemma_combine_range net mac hmac hnet hlt
+    simp only [addrByEUI64, eui64Value, ipAddressOfInt]
+    rw [if_neg (by omega), if_pos h2]
+  · simp only [macOf]; rw [lemma_macOfNat_combine net mac hmac hnet]
+
+example : (0x00163e334455 : Nat) < 2^48 ∧ (0x20010db8 <<< 96 : Nat) % 2^64 = 0 ∧
+    (0x20010db8 <<< 96 : Nat) < 2^128 := by decide
+/-- 2001:db8::/64 + 00:16:3e:33:44:55 = 2001:db8::216:3eff:fe33:4455, and back -/
+example : addrByEUI64 (.net (0x20010db8 <<< 96)) (.eui48 0x00163e334455)
+    = .ok (.v6 0x20010db80000000002163efffe334455) ∧
+    macOf (.v6 0x20010db80000000002163efffe334455) = .ok 0x00163e334455 := by decide
+
+/-- The zero-low-64-bits hypothesis is needed: for the /128 "prefix" ::1 and the MAC
+    00:00:00:00:00:00 the code adds the interface identifier onto the host part and the MAC that
+    comes back is 00:00:00:00:00:01 (the real code returns ::200:ff:fe00:1 for `('::1', 0)`). -/
+theorem mac_not_recovered_when_low64_nonzero :
+    ∃ net mac a, mac < 2^48 ∧ net < 2^128 ∧ addrByEUI64 (.net net) (.eui48 mac) = .ok (.v6 a) ∧
+      macOf (.v6 a) ≠ .ok mac :=
+  ⟨1, 0, 0x020000fffe000001, by decide⟩
+
+/-- **Layout.**  With `a` the produced address: the upper 64 bits are the network address; the
+    interface identifier is [MAC octets 0-2 with bit 0x02 of octet 0 inverted] ff fe [MAC octets 3-5].
+    In bit positions of the 128-bit address (bit 0 = least significant): bits 24..39 are 0xfffe,
+    bits 0..23 are MAC bits 0..23, bits 40..63 are MAC bits 24..47 except that bit 57 (the
+    universal/local bit, MAC bit 41) is inverted. -/
+theorem eui64_layout (net mac : Nat) (hmac : mac < 2^48) (hnet : net % 2^64 = 0) :
+    let a := combine net (eui64Of48 mac)
+    a / 2^64 = net / 2^64 ∧
+    a / 2^40 % 2^24 = (mac / 2^24) ^^^ 0x020000 ∧
+    a / 2^24 % 2^16 = 0xFFFE ∧
+    a % 2^24 = mac % 2^24 ∧
+    a.testBit 57 = !mac.testBit 41 ∧
+    (∀ i, i < 24 → i ≠ 17 → a.testBit (40 + i) = mac.testBit (24 + i)) := by
+  intro a
+  have ha : a = net + (flip17 (mac / 2^24) * 2^40 + 0xFFFE000000 + mac % 2^24) :=
+    lemma_combine_arith net mac hmac hnet
+  have hf := lemma_flip17_lt (mac / 2^24) (by omega)
+  have hmid : a / 2^40 % 2^24 = (mac / 2^24) ^^^ 2^17 := by
+    rw [← lemma_flip17_eq_xor, ha]
+    exact lemma_mid _ (net / 2^64) _ (0xFFFE000000 + mac % 2^24) (by omega) hf (by omega)
+  have hbits : ∀ i, i < 24 → a.testBit (40 + i) = (mac.testBit (24 + i) ^^ decide (17 = i)) := by
+    intro i hi
+    have : a.testBit (40 + i) = (a / 2^40 % 2^24).testBit i := by
+      rw [Nat.testBit_mod_two_pow, Nat.testBit_div_two_pow]; simp [hi, Nat.add_comm]
+    rw [this, hmid, Nat.testBit_xor, Nat.testBit_div_two_pow, Nat.testBit_two_pow, Nat.add_comm]
+  refine ⟨by omega, hmid, by omega, by omega, ?_, ?_⟩
+  · have := hbits 17 (by decide); simpa using this
+  · intro i hi hne
+    have := hbits i hi
+    have h17 : decide (17 = i) = false := by simp; omega
+    rw [this, h17]; simp
+
+/-- the value get_mac_addr_by_ipv6 hands to `netaddr.EUI(int)` is always a 48-bit number, for any
+    address whatsoever: `EUI()` never raises there and always yields an EUI-48 -/
+theorem macOfNat_lt (a : Nat) : macOfNat a < 2^48 := by
+  rw [lemma_macOfNat_arith, lemma_xor_two_pow]
+  have h1 : a / 2^40 % 2^24 < 2^24 := Nat.mod_lt _ (by decide)
+  have h2 : a % 2^24 < 2^24 := Nat.mod_lt _ (by decide)
+  generalize a / 2^40 % 2^24 = H at *
+  generalize a % 2^24 = L at *
+  split
+  · next hb =>
+    have : H < 2^23 ∨ (2^23 ≤ H) := by omega
+    have hbit := lemma_bit41 (H * 2^24 + L) (H / 2^18) (H / 2^17 % 2) (2^24 * (H % 2^17) + L)
+      (by omega) (by omega) (by omega)
+    rw [hbit] at hb
+    omega
+  · omega
+
+/-- an IPv4 address given as prefix raises ValueError, whatever the MAC argument is -/
+theorem eui64_rejects_ipv4_prefix (m : MacIn) :
+    addrByEUI64 .ipv4Addr m = .error .valueError := rfl
+
+/-- **Error contract.**  A prefix that is not a string, is an IPv4 address or cannot be parsed, or a
+    MAC that `netaddr.EUI` rejects, always ends in an error; and whatever the inputs, the only
+    errors are ValueError and TypeError (AddrFormatError never escapes). -/
+theorem eui64_error_contract (p : PrefixIn) (m : MacIn) :
+    ((p = .notStr ∨ p = .ipv4Addr ∨ p = .malformed ∨ m = .wrongType ∨ m = .malformed) →
+      ∃ e, addrByEUI64 p m = .error e) ∧
+    (∀ e, addrByEUI64 p m = .error e → e = .valueError ∨ e = .typeError) := by
+  constructor
+  · intro h
+    cases p <;> cases m <;> simp_all [addrByEUI64, eui64Value]
+  · intro e h
+    cases p <;> cases m <;> simp_all [addrByEUI64, eui64Value] <;>
+      (split at h <;> simp_all)
+
+example : addrByEUI64 .notStr (.eui48 5) = .error .typeError ∧
+    addrByEUI64 (.net 0) .malformed = .error .valueError ∧
+    addrByEUI64 (.net (2^128 - 1)) (.eui48 1) = .error .valueError := by decide
+
+/-! ## host:port -/
+
+/-- a host name (or anything else) without ':' that does not start with '[' -/
+def isName (h : List Char) : Bool := !h.contains ':' && h.head? != some '['
+
+/-- dotted-quad IPv4 text, as accepted by inet_pton(AF_INET) -/
+def isIPv4Text (h : List Char) : Bool := pton4 h
+
+/-- IPv6 text as accepted by inet_pton(AF_INET6), optionally followed by `%scope` where the scope
+    has 1..15 characters, none of them ']' (nor '%': the split is at the last '%') -/
+def isIPv6Host (h : List Char) : Bool :=
+  match rsplit1 '%' h with
+  | (a, none) => pton6 a
+  | (a, some sc) => pton6 a && decide (1 ≤ sc.length) && decide (sc.length ≤ 15) && !sc.contains ']'
+
+/-- port text: a non-empty string of ASCII digits (at most `sys.get_int_max_str_digits()` of them) -/
+def isPortDigits (ds : List Char) : Bool :=
+  !ds.isEmpty && ds.all isDigit && decide (ds.length ≤ maxStrDigits)
+
+theorem lemma_portDigits (ds : List Char) (h : isPortDigits ds = true) :
+    ds ≠ [] ∧ (∀ c ∈ ds, isDigit c = true) ∧ ds.length ≤ maxStrDigits ∧ ':' ∉ ds ∧ ']' ∉ ds := by
+  simp [isPortDigits] at h
+  obtain ⟨⟨h1, h2⟩, h3⟩ := h
+  refine ⟨h1, h2, h3, ?_, ?_⟩
+  · intro hc; have := h2 _ hc; revert this; decide
+  · intro hc; have := h2 _ hc; revert this; decide
+
+/-- dotted quads are names in the sense above -/
+theorem lemma_ipv4_isName (h : List Char) (h4 : isIPv4Text h = true) : isName h = true := by
+  have hall := lemma_pton4_chars h h4
+  have h1 : ':' ∉ h := by
+    intro hc; rcases hall _ hc with hd | hd
+    · revert hd; decide
+    · exact absurd hd (by decide)
+  have h2 : h.head? ≠ some '[' := by
+    intro hh
+    have hm : '[' ∈ h := List.mem_of_head? hh
+    rcases hall _ hm with hd | hd
+    · revert hd; decide
+    · exact absurd hd (by decide)
+  simp [isName, h1, h2]
+
+theorem lemma_okV6Char_ne (c : Char) (h : okV6Char c) : c ≠ ']' ∧ c ≠ '%' ∧ c ≠ '[' := by
+  refine ⟨?_, ?_, ?_⟩ <;> (intro e; subst e; rcases h with h | h | h <;> revert h <;> decide)
+
+/-- the IPv6 host class is escaped, and contains no ']' -/
+theorem lemma_ipv6Host (h : List Char) (h6 : isIPv6Host h = true) :
+    isValidIPv6 h = true ∧ ']' ∉ h := by
+  unfold isIPv6Host at h6
+  rcases hr : rsplit1 '%' h with ⟨a, _ | sc⟩
+  · rw [hr] at h6; simp only at h6
+    have ⟨e, _⟩ := (lemma_rsplit1_spec '%' h).2 a hr
+    subst e
+    have hch := lemma_pton6_chars h h6
+    have hne : h ≠ [] := by intro e; subst e; simp [pton6] at h6
+    refine ⟨by simp [isValidIPv6, hne, hr, h6], fun hc => (lemma_okV6Char_ne _ (hch _ hc)).1 rfl⟩
+  · rw [hr] at h6; simp at h6
+    obtain ⟨⟨⟨hp, hl1⟩, hl2⟩, hsc⟩ := h6
+    have ⟨e, _⟩ := (lemma_rsplit1_spec '%' h).1 a sc hr
+    have hch := lemma_pton6_chars a hp
+    have hne : h ≠ [] := by rw [e]; simp
+    refine ⟨?_, ?_⟩
+    · have hl : ¬ (sc.length < 1 ∨ sc.length > 15) := by omega
+      simp [isValidIPv6, hne, hr, hp]
+      exact ⟨fun e => by simp [e] at hl1, hl2⟩
+    · rw [e]; intro hc
+      rcases List.mem_append.mp hc with hc | hc
+      · exact (lemma_okV6Char_ne _ (hch _ hc)).1 rfl
+      · rcases List.mem_cons.mp hc with hc | hc
+        · exact absurd hc (by decide)
+        · exact hsc hc
+
+/-- parse_host_port on a non-empty address that does not start with '[' -/
+theorem lemma_php_unbracketed (a : List Char) (d : DefPort) (hne : a ≠ [])
+    (hh : a.head? ≠ some '[') : parseHostPort (some a) d = parseUnbracketed a d := by
+  cases a with
+  | nil => exact absurd rfl hne
+  | cons c rest =>
+    have hc : c ≠ '[' := by intro e; subst e; simp at hh
+    simp [parseHostPort, hc]
+
+theorem lemma_convPort_digits (d : DefPort) (ds : List Char) (h : isPortDigits ds = true) :
+    convPort d (.text ds) = .ok (some (decVal ds : Int)) := by
+  obtain ⟨h1, h2, h3, _, _⟩ := lemma_portDigits ds h
+  simp [convPort, lemma_pyInt_digits ds h1 h2 h3, Except.map]
+
+/-- **Round trip.**  For every host that is a name without ':' (not starting with '['), a dotted
+    quad, or IPv6 text with an optional scope free of ']', every string of port digits and every
+    default port: `parse_host_port(escape_ipv6(host) + ':' + port)` is `(host, int(port))`. -/
+theorem hostport_roundtrip (h ds : List Char) (d : DefPort)
+    (hh : isName h = true ∨ isIPv4Text h = true ∨ isIPv6Host h = true)
+    (hp : isPortDigits ds = true) :
+    parseHostPort (some (escapeIPv6 h ++ ':' :: ds)) d = .ok (some h, some (decVal ds : Int)) := by
+  obtain ⟨_, _, _, hcolon, hbr⟩ := lemma_portDigits ds hp
+  have hconv := lemma_convPort_digits d ds hp
+  rcases hh with hn | h4 | h6
+  · -- names
+    simp [isName] at hn
+    obtain ⟨hno, hhead⟩ := hn
+    have hesc : escapeIPv6 h = h := by simp [escapeIPv6, lemma_isValidIPv6_no_colon h hno]
+    rw [hesc, lemma_php_unbracketed _ d (by simp)]
+    · have hcount : (h ++ ':' :: ds).count ':' = 1 := by
+        rw [List.count_append, List.count_cons_self, List.count_eq_zero.mpr hno,
+          List.count_eq_zero.mpr hcolon]
+      unfold parseUnbracketed
+      rw [if_pos hcount, lemma_splitOn_append ':' h ds hno, lemma_splitOn_no_sep ':' ds hcolon]
+      simp [hconv, Except.map]
+    · cases h with
+      | nil => simp
+      | cons c cs => simpa using hhead
+  · -- dotted quads are names
+    have hn := lemma_ipv4_isName h h4
+    simp [isName] at hn
+    obtain ⟨hno, hhead⟩ := hn
+    have hesc : escapeIPv6 h = h := by simp [escapeIPv6, lemma_isValidIPv6_no_colon h hno]
+    rw [hesc, lemma_php_unbracketed _ d (by simp)]
+    · have hcount : (h ++ ':' :: ds).count ':' = 1 := by
+        rw [List.count_append, List.count_cons_self, List.count_eq_zero.mpr hno,
+          List.count_eq_zero.mpr hcolon]
+      unfold parseUnbracketed
+      rw [if_pos hcount, lemma_splitOn_append ':' h ds hno, lemma_splitOn_no_sep ':' ds hcolon]
+      simp [hconv, Except.map]
+    · cases h with
+      | nil => simp
+      | cons c cs => simpa using hhead
+  · -- IPv6 text: escaped in brackets
+    obtain ⟨hv, hnb⟩ := lemma_ipv6Host h h6
+    have hesc : escapeIPv6 h ++ ':' :: ds = '[' :: (h ++ ']' :: ':' :: ds) := by
+      simp [escapeIPv6, hv]
+    have hnb2 : ']' ∉ (':' :: ds) := by
+      intro hc; rcases List.mem_cons.mp hc with e | e
+      · exact absurd e (by decide)
+      · exact hbr e
+    rw [hesc]
+    simp only [parseHostPort, if_true, parseBracketed]
+    rw [lemma_splitOn_append ']' h (':' :: ds) hnb, lemma_splitOn_no_sep ']' _ hnb2]
+    have hs : splitOn ':' (':' :: ds) = [[], ds] := by
+      have := lemma_splitOn_append ':' [] ds (by simp)
+      simpa [lemma_splitOn_no_sep ':' ds hcolon] using this
+    simp [hs, hconv, Except.map]
+
+-- non-vacuity: one host of each class, with a port
+example : isName "server01".toList = true ∧ isIPv4Text "192.168.1.10".toList = true ∧
+    isIPv6Host "2001:db8::1".toList = true ∧ isIPv6Host "fe80::1%eth0".toList = true ∧
+    isIPv6Host "::ffff:1.2.3.4".toList = true ∧ isPortDigits "65535".toList = true ∧
+    decVal "65535".toList = 65535 := by decide
+example : escapeIPv6 "fe80::1%eth0".toList = "[fe80::1%eth0]".toList ∧
+    parseHostPort (some "[fe80::1%eth0]:8080".toList) .none
+      = .ok (some "fe80::1%eth0".toList, some 8080) := by decide
+
+/-- The restriction on the scope is needed: `escape_ipv6` accepts a scope containing ']' (any
+    1..15 characters pass `is_valid_ipv6`), and `parse_host_port` then fails to unpack. -/
+theorem hostport_scope_with_bracket_fails :
+    isValidIPv6 "fe80::1%]".toList = true ∧
+    parseHostPort (some (escapeIPv6 "fe80::1%]".toList ++ ":80".toList)) .none
+      = .error .valueError := by decide
+
+/-- `int(default_port)`, or `None` -/
+def defaultValue : DefPort → Except HostPort.Err (Option Int)
+  | .none => .ok none
+  | .int n => .ok (some n)
+  | .str s => (pyInt s).map some
+
+/-- **Missing port.**  For every non-empty host of the three classes, `parse_host_port(escape_ipv6(host),
+    default_port)` is `(host, default_port)` (converted with `int()` when it is not `None`). -/
+theorem hostport_default (h : List Char) (d : DefPort) (hne : h ≠ [])
+    (hh : isName h = true ∨ isIPv4Text h = true ∨ isIPv6Host h = true) :
+    parseHostPort (some (escapeIPv6 h)) d = (defaultValue d).map (fun q => (some h, q)) := by
+  have hdf : convPort d .dflt = defaultValue d := by cases d <;> rfl
+  have name_case : ∀ h : List Char, h ≠ [] → isName h = true →
+      parseHostPort (some (escapeIPv6 h)) d = (defaultValue d).map (fun q => (some h, q)) := by
+    intro h hne hn
+    simp [isName] at hn
+    obtain ⟨hno, hhead⟩ := hn
+    have hesc : escapeIPv6 h = h := by simp [escapeIPv6, lemma_isValidIPv6_no_colon h hno]
+    rw [hesc, lemma_php_unbracketed h d hne (by cases h <;> simp_all)]
+    unfold parseUnbracketed
+    rw [if_neg (by rw [List.count_eq_zero.mpr hno]; decide), hdf]
+  rcases hh with hn | h4 | h6
+  · exact name_case h hne hn
+  · exact name_case h hne (lemma_ipv4_isName h h4)
+  · obtain ⟨hv, hnb⟩ := lemma_ipv6Host h h6
+    have hesc : escapeIPv6 h = '[' :: (h ++ ']' :: []) := by simp [escapeIPv6, hv]
+    rw [hesc]
+    simp only [parseHostPort, if_true, parseBracketed]
+    rw [lemma_splitOn_append ']' h [] hnb]
+    simp [splitOn, hdf]
+
+example : parseHostPort (some (escapeIPv6 "::1".toList)) (.int 1234)
+    = .ok (some "::1".toList, some 1234) := by decide
+
+/-- `None` or the empty string give `(None, None)` whatever the default port -/
+theorem hostport_empty (d : DefPort) :
+    parseHostPort none d = .ok (none, none) ∧ parseHostPort (some []) d = .ok (none, none) :=
+  ⟨rfl, rfl⟩
+
+/-! ## urlsplit wrapper and params() -/
+
+/-- **Agreement with the standard library.**  On any five-tuple in which the path contains no '?'
+    and, when fragments are allowed, no '#' — which is what `urllib.parse.urlsplit` returns — the
+    wrapper's two fix-ups change nothing: netutils.urlsplit returns the library's components.
+    (`urlsplit` itself is a parameter: that it satisfies the hypotheses is checked against the real
+    library on every generated URL, not proved.) -/
+theorem urlsplit_agrees (af : Bool) (r : Split5)
+    (hq : '?' ∉ r.path) (hf : af = true → '#' ∉ r.path) : urlsplitFix af r = r := by
+  unfold urlsplitFix
+  cases af
+  · simp [hq]
+  · simp [hq, hf rfl]
+
+example : ('?' ∉ "/a/b".toList) ∧ ('#' ∉ "/a/b".toList) := by decide
+
+theorem lemma_takeWhile_no_sep (sep : Char) (s : List Char) : sep ∉ s.takeWhile (· ≠ sep) := by
+  intro h
+  have hall := @List.all_takeWhile _ (· ≠ sep) s
+  rw [List.all_eq_true] at hall
+  simpa using hall _ h
+
+/-- whatever five-tuple the library hands over, after the fix-ups the path is free of '?', and of
+    '#' when fragments are allowed -/
+theorem urlsplit_fix_postcondition (af : Bool) (r : Split5) :
+    '?' ∉ (urlsplitFix af r).path ∧ (af = true → '#' ∉ (urlsplitFix af r).path) := by
+  unfold urlsplitFix
+  by_cases h1 : (af && r.path.contains '#') = true
+  · simp only [h1, if_true]
+    have hno : '#' ∉ (split1 '#' r.path).1 := lemma_takeWhile_no_sep '#' r.path
+    by_cases h2 : (split1 '#' r.path).1.contains '?' = true
+    · simp only [h2, if_true]
+      refine ⟨lemma_takeWhile_no_sep '?' _, fun _ hc => hno ?_⟩
+      exact (List.takeWhile_sublist _).subset hc
+    · simp only [h2, Bool.false_eq_true, if_false]
+      exact ⟨by simpa using h2, fun _ => hno⟩
+  · simp only [h1, Bool.false_eq_true, if_false]
+    by_cases h2 : r.path.contains '?' = true
+    · simp only [h2, if_true]
+      refine ⟨lemma_takeWhile_no_sep '?' _, fun ha hc => ?_⟩
+      have hc' : '#' ∈ r.path := (List.takeWhile_sublist _).subset hc
+      simp [ha] at h1
+      exact h1 hc'
+    · simp only [h2, Bool.false_eq_true, if_false]
+      refine ⟨by simpa using h2, fun ha => ?_⟩
+      simpa [ha] using h1
+
+/-- all values given for `k`, in query order -/
+def valuesFor (qsl : List (List Char × List Char)) (k : List Char) : List (List Char) :=
+  (qsl.filter (fun kv => kv.1 = k)).map Prod.snd
+
+/-- **params(), collapse=True**: each name maps to the last value given for it (and names that do
+    not occur are absent) -/
+theorem params_last (query : List Char) (qsl : List (List Char × List Char)) (k : List Char)
+    (hq : query ≠ []) :
+    dictGet (params query qsl true) k = (valuesFor qsl k).getLast?.map .one := by
+  simp only [params, hq, if_false, if_true, lemma_dictGet_map_one, paramsCollapse]
+  rw [lemma_foldl_collapse]
+  simp [valuesFor, dictGet]
+
+/-- **params(), collapse=False**: a name given once maps to its value, a name given several times
+    to the list of all its values in order, other names are absent -/
+theorem params_all (query : List Char) (qsl : List (List Char × List Char)) (k : List Char)
+    (hq : query ≠ []) :
+    dictGet (params query qsl false) k = ofVals (valuesFor qsl k) := by
+  simp only [params, hq, if_false, Bool.false_eq_true, paramsAll]
+  have hc : Canon [] := by intro k vs h; simp [dictGet] at h
+  have ⟨c, e⟩ := lemma_foldl_allStep qsl [] k hc
+  rw [lemma_ofVals_valsOf _ (c k), e]
+  simp [valuesFor, dictGet, valsOf]
+
+/-- an empty query gives the empty dict -/
+theorem params_empty_query (qsl : List (List Char × List Char)) (c : Bool) :
+    params [] qsl c = [] := by simp [params]
+
+/-- the model's association list is a dict: names are distinct -/
+theorem params_keys_distinct (query : List Char) (qsl : List (List Char × List Char)) (c : Bool) :
+    ((params query qsl c).map Prod.fst).Nodup := by
+  unfold params
+  split
+  · simp
+  · split
+    · have : ∀ (l : List (List Char × List Char)) d, (d.map Prod.fst).Nodup →
+          ((l.foldl (fun d kv => dictSet d kv.1 kv.2) d).map Prod.fst).Nodup := by
+        intro l; induction l with
+        | nil => intro d h; exact h
+        | cons kv l ih => intro d h; exact ih _ (lemma_dictSet_nodup d kv.1 kv.2 h)
+      have := this qsl [] (by simp)
+      simpa [paramsCollapse, List.map_map, Function.comp_def] using this
+    · have : ∀ (l : List (List Char × List Char)) d, (d.map Prod.fst).Nodup →
+          ((l.foldl allStep d).map Prod.fst).Nodup := by
+        intro l; induction l with
+        | nil => intro d h; exact h
+        | cons kv l ih => intro d h; exact ih _ (lemma_allStep_nodup d kv h)
+      exact this qsl [] (by simp)
+
+-- a=1&a=2&b=3&a=4 : last value / all values
+example :
+    let qsl := [("a".toList, "1".toList), ("a".toList, "2".toList), ("b".toList, "3".toList),
+                ("a".toList, "4".toList)]
+    params "x".toList qsl true = [("a".toList, .one "4".toList), ("b".toList, .one "3".toList)] ∧
+    params "x".toList qsl false
+      = [("a".toList, .many ["1".toList, "2".toList, "4".toList]), ("b".toList, .one "3".toList)] := by
+  decide
+
 end Oslo.C15
